@@ -24,7 +24,16 @@ RULE = ("cases: (block class BTC/LTC, block bytes built by the reference seriali
         "bound methods, an unhashable callable object, non-hash functions) in both orders; blocks parsed after other trees were "
         "computed over their txids, incl. blocks carrying the other function's root (must be refused); one Block object taken "
         "through set_txs(good/bad, checked/unchecked) / check_merkle_hash / as_bin, and through set_nonce / hash / id / as_bin / "
-        "as_blockheader sequences incl. returning to an earlier nonce; honest proofs re-parsed after their corruptions.")
+        "as_blockheader sequences incl. returning to an earlier nonce; honest proofs re-parsed after their corruptions. "
+        "Object kinds x entry points: for groups of 1-3 honest blocks, every way the public API yields a header-bearing object "
+        "(parse_as_header, constructor, parse(include_transactions=False), as_blockheader() of a full block / of a header, full "
+        "block with set_txs([]), header / block objects returned by message.parse of 'headers' / 'merkleblock' / 'block', "
+        "from_bin, parse, parse(include_offsets), constructor + set_txs) x every entry point in a shuffled order with repeats and "
+        "a set_nonce in between (stream_header, stream, as_bin, as_hex, hash, id, as_blockheader, independence of the "
+        "as_blockheader() result, check_merkle_hash, and the object handed to message.pack as `header` of an honest 'merkleblock' "
+        "proof, as an entry of 'headers', as `block` of 'block': packed bytes = reference wire encoding, parsed back by the "
+        "library), then one 'headers' message over all objects of all kinds and the objects unchanged by packing; mismatching "
+        "blocks also through message.parse('block').")
 ASSUMPTIONS = [
     "reference serialisers/merkle/partial merkle tree in vmon/refs (blockser, txser, merkle, pmt, p2p) are correct; self-tested on "
     "every run against the genesis header id, a real 3-transaction mainnet block, blocks 170/71038 roots, the developer-reference "
@@ -41,6 +50,14 @@ ASSUMPTIONS = [
     "whatever was computed earlier in the process",
     "a Block object is judged at each point of a history by its current header fields and its current transaction list as set "
     "through the public methods (set_txs, set_nonce); attribute assignment and in-place edits of block.txs are not used",
+    "a Block object without transactions (never given any, or after set_txs([])) is a header: stream/as_bin/as_hex give its 80 "
+    "bytes; an object with transactions gives header, compact-size count, transactions; stream_header, hash, id and "
+    "as_blockheader() give the header of either kind",
+    "any object of the network's block class is a valid `header` argument of message.pack('merkleblock') / entry of "
+    "message.pack('headers') and stands for its 80-byte header there (that is what the packer's header streaming function is "
+    "for); the packer refusing the object returned by the library's own as_blockheader() is recorded as finding F14-a; bytes "
+    "that differ from the reference encoding are reported and not fed to the library's parser",
+    "the object returned by as_blockheader() is independent of the block: set_nonce on one does not change the other",
 ]
 EXPLANATION = ("every block/header/merkle/merkleblock call on the real library is compared with the reference; honest proofs must be "
                "accepted with exactly the matched ids in order, listed corruptions must raise")
@@ -69,7 +86,9 @@ def plan(tier, seed):
               {"kind": "merkle", "upto": 400 if q else 2100, "label": "merkle"},
               {"kind": "cve", "upto": 40 if q else 140, "label": "cve"},
               {"kind": "history", "net": "BTC", "reps": 4 if q else 100, "label": "history-BTC"},
-              {"kind": "history", "net": "LTC", "reps": 4 if q else 100, "label": "history-LTC"}]
+              {"kind": "history", "net": "LTC", "reps": 4 if q else 100, "label": "history-LTC"},
+              {"kind": "kinds", "net": "BTC", "reps": 8 if q else 150, "label": "kinds-BTC"},
+              {"kind": "kinds", "net": "LTC", "reps": 8 if q else 150, "label": "kinds-LTC"}]
     for p in range(N_PROOF_SHARDS):
         shards.append({"kind": "proofs", "part": p, "parts": N_PROOF_SHARDS, "sampled": 96 if q else 8000,
                        "label": "proofs-%d" % p})
@@ -208,6 +227,15 @@ def judge_block(net, data, rec, sample=False, pre=None):
         st, out = observe(b3.as_bin)
         if st != "ok" or out != data:
             rec.violation("block.roundtrip_mismatch", case, out, data)
+    # the same bytes arriving as a 'block' message
+    rec.ev("message.parse(block)")
+    st, d = observe(N.message.parse, "block", data)
+    if st != "ok":
+        rec.violation("block.parse_rejects_valid", case, d, "block")
+    else:
+        st, out = observe(d["block"].as_bin)
+        if st != "ok" or out != data:
+            rec.violation("block.roundtrip_mismatch", case, out, data)
     # header-only parse of the same stream
     st, hb = observe(Block.parse, io.BytesIO(data), include_transactions=False)
     if st != "ok" or hb.as_bin() != data[:80]:
@@ -272,6 +300,11 @@ def judge_badroot(net, data, rec, cls="altered", pre=None):
     st, b = observe(Block.parse, io.BytesIO(data), include_offsets=True)
     if st == "ok":
         rec.violation("block.accepts_bad_merkle_root.parse_include_offsets", case, "accepted", "BadMerkleRootError")
+    # the same bytes arriving as a 'block' message
+    rec.ev("BadMerkleRoot:message.parse(block)")
+    st, b = observe(N.message.parse, "block", data)
+    if st == "ok":
+        rec.violation("block.accepts_bad_merkle_root.message_parse", case, "accepted", "BadMerkleRootError")
     # unchecked parse is allowed to succeed; the explicit check and set_txs must then refuse
     st, b = observe(Block.parse, io.BytesIO(data), check_merkle_hash=False)
     if st == "ok":
@@ -992,9 +1025,394 @@ def run_history(spec, rec):
                 "example": gen_merkle_history(shard_rng(0, PROPERTY, "sample", 0), 5)})
 
 
+# ------------------------------------------------------------------------- header-bearing object kinds x entry points
+
+# every way the public API yields an object that carries a block header -> does the object carry transactions?
+OBJECT_KINDS = {
+    "parse_as_header": False,            # Block.parse_as_header(80 bytes)
+    "constructed": False,                # Block(version, prev, root, time, bits, nonce)
+    "parsed_no_txs": False,              # Block.parse(block stream, include_transactions=False)
+    "as_blockheader_of_full": False,     # full.as_blockheader()
+    "as_blockheader_of_header": False,   # header.as_blockheader()
+    "txs_emptied": False,                # full block, then set_txs([])
+    "msg_headers_entry": False,          # message.parse("headers", ...)["headers"][0][0]
+    "msg_merkleblock_header": False,     # message.parse("merkleblock", ...)["header"]
+    "from_bin_full": True,               # Block.from_bin(block bytes)
+    "parsed_full": True,                 # Block.parse(stream)
+    "parsed_offsets": True,              # Block.parse(stream, include_offsets=True)
+    "set_txs_full": True,                # constructed header + set_txs(parsed transactions)
+    "msg_block": True,                   # message.parse("block", ...)["block"]
+}
+AS_BLOCKHEADER_KINDS = ("as_blockheader_of_full", "as_blockheader_of_header")
+OBJECT_OPS = ("stream_header", "stream", "as_bin", "as_hex", "hash", "id", "previous_block_id", "as_blockheader", "str",
+              "check_merkle_hash", "pack_merkleblock", "pack_headers", "pack_block", "alias_blockheader", "set_nonce")
+
+
+def _make_object(N, kind, data, header, proof):
+    """-> observe() result of building the object of that kind for the block `data` through the real library"""
+    Block = N.block
+    six = (header["version"], header["prev"], header["root"], header["time"], header["bits"], header["nonce"])
+
+    def build():
+        if kind == "parse_as_header":
+            return Block.parse_as_header(io.BytesIO(data[:80]))
+        if kind == "constructed":
+            return Block(*six)
+        if kind == "parsed_no_txs":
+            f = io.BytesIO(data)
+            b = Block.parse(f, include_transactions=False)
+            if f.tell() != 80:
+                raise _Consumed(f.tell())
+            return b
+        if kind == "as_blockheader_of_full":
+            return Block.from_bin(data).as_blockheader()
+        if kind == "as_blockheader_of_header":
+            return Block.parse_as_header(io.BytesIO(data[:80])).as_blockheader()
+        if kind == "txs_emptied":
+            b = Block.from_bin(data)
+            b.set_txs([])
+            return b
+        if kind == "msg_headers_entry":
+            return N.message.parse("headers", P2P.encode("headers", {"headers": [{"header": header, "txn_count": 0}]}))["headers"][0][0]
+        if kind == "msg_merkleblock_header":
+            return N.message.parse("merkleblock", proof)["header"]
+        if kind == "from_bin_full":
+            return Block.from_bin(data)
+        if kind == "parsed_full":
+            return Block.parse(io.BytesIO(data))
+        if kind == "parsed_offsets":
+            return Block.parse(io.BytesIO(data), include_offsets=True)
+        if kind == "set_txs_full":
+            b = Block(*six)
+            b.set_txs(list(Block.from_bin(data).txs))
+            return b
+        if kind == "msg_block":
+            return N.message.parse("block", data)["block"]
+        raise ValueError(kind)
+    return observe(build)
+
+
+class _Consumed(Exception):
+    pass
+
+
+def gen_kinds_plan(rng, n_blocks, quick=True):
+    """plan = {"objects": [[block index, kind, [ops...]], ...], "headers_order": [...], "counts": [...]}.
+    Every kind on every block; each object gets every entry point once in a shuffled order with set_nonce somewhere
+    (so that later entry points see a header that was edited through the public method) and some entry points repeated."""
+    objects = []
+    for bi in range(n_blocks):
+        kinds = sorted(OBJECT_KINDS)
+        rng.shuffle(kinds)
+        for kind in kinds:
+            ops = [o for o in OBJECT_OPS if o != "set_nonce"]
+            rng.shuffle(ops)
+            if rng.random() < 0.6:
+                ops.insert(rng.randrange(len(ops) + 1), "set_nonce")
+            ops += rng.sample(OBJECT_OPS[:-1], 3)
+            # the message packers before anything else was called on the object, for some
+            if rng.random() < 0.3:
+                first = rng.choice(["pack_merkleblock", "pack_headers", "pack_block"])
+                ops.remove(first)
+                ops.insert(0, first)
+            objects.append([bi, kind, ops])
+    order = list(range(len(objects)))
+    rng.shuffle(order)
+    counts = [0 if rng.random() < 0.7 else rng.choice([1, 252, 253, 65536]) for _ in order]
+    return {"objects": objects, "headers_order": order, "counts": counts, "nonce_salt": rng.getrandbits(32)}
+
+
+def judge_kinds(net, blocks, matches, plan, rec):
+    """blocks: list of honest block bytes; matches: per block the matched transaction indices of the proof.
+    For every (block, kind): build the object, run the entry points in the planned order; each must behave as the header /
+    block it currently carries. Then one 'headers' message over all objects in the planned order."""
+    N = _net(net)
+    case = {"kind": "kinds", "net": net, "blocks": list(blocks), "matches": [list(m) for m in matches], "plan": plan}
+    rec.case(("kinds", net, tuple(blocks), repr(matches), repr(plan)))
+    info = []
+    for data, m in zip(blocks, matches):
+        header, txs, used = RB.parse_block(data)
+        if RB.root_of(txs) != header["root"]:
+            raise RuntimeError("judge_kinds: generator error")
+        txids = [RT.txid_bytes(t) for t in txs]
+        total, hashes, fb = RP.build(txids, m)
+        info.append({"data": data, "header": header, "txids": txids, "proof": (total, hashes, fb),
+                     "want": [txids[i] for i in sorted(m)], "proof_msg": proof_msg(header, total, hashes, fb)})
+    live = []                                        # (object, current header dict, has_txs, kind, block info) for the final message
+    for oi, (bi, kind, ops) in enumerate(plan["objects"]):
+        I = info[bi]
+        has_txs = OBJECT_KINDS[kind]
+        rec.ev("kind:" + kind)
+        st, obj = _make_object(N, kind, I["data"], I["header"], I["proof_msg"])
+        c = dict(case, object=oi)
+        if st != "ok":
+            if isinstance(obj, _Consumed):
+                rec.violation("header.parse_consumed_wrong_length", c, obj.args[0], 80)
+            else:
+                rec.violation("kinds.object_not_obtained." + ("full" if has_txs else "header_only"), c, obj, kind)
+            live.append(None)
+            continue
+        cur = dict(I["header"])
+        live.append([obj, cur, has_txs, kind, I])
+        ok = True
+        for step, op in enumerate(ops):
+            ok = _object_op(N, obj, cur, has_txs, kind, I, op, dict(c, step=step, op=op), plan["nonce_salt"] + 31 * oi + step, rec)
+            if not ok:
+                break
+    # one 'headers' message built from objects of every kind
+    entries, want = [], []
+    for idx, cnt in zip(plan["headers_order"], plan["counts"]):
+        if live[idx] is None:
+            continue
+        obj, cur, has_txs, kind, I = live[idx]
+        if kind in AS_BLOCKHEADER_KINDS and not isinstance(obj, N.block):
+            continue                                 # judged per object (pack_headers)
+        entries.append((obj, cnt))
+        want.append({"header": dict(cur), "txn_count": cnt})
+    if entries:
+        rec.ev("message.pack(headers)")
+        ref = P2P.encode("headers", {"headers": want})
+        st, out = observe(N.message.pack, "headers", headers=entries)
+        c = dict(case, op="headers_of_all_kinds")
+        if st != "ok":
+            rec.violation("pack.headers_raises", c, out, "packed message")
+        elif out != ref:
+            rec.violation("pack.headers_not_wire_format", c, out, ref)
+        else:
+            rec.ev("message.parse(headers)")
+            st, d = observe(N.message.parse, "headers", out)
+            if st != "ok":
+                rec.violation("headers.parse_raises", c, d, "headers")
+            else:
+                got = [(_hdr_fields(h), k) for h, k in d["headers"]]
+                if got != [(w["header"], w["txn_count"]) for w in want]:
+                    rec.violation("headers.roundtrip_mismatch", c, got, want)
+                elif any(bytes(h.hash()) != RB.block_hash(w["header"]) for (h, k), w in zip(d["headers"], want)):
+                    rec.violation("block.hash_mismatch", c, "ids of parsed headers", "dsha(header)")
+        # the objects are what they were: handing them to the packer must not have changed them
+        for item in live:
+            if item is None:
+                continue
+            obj, cur, has_txs, kind, I = item
+            wantb = RB.ser_header(cur) + (I["data"][80:] if has_txs else b"")
+            st, out = observe(obj.as_bin)
+            if st != "ok" or out != wantb:
+                rec.violation("kinds.object_changed_by_packing", dict(case, kind_of_object=kind), out, wantb)
+                break
+
+
+def _object_op(N, obj, cur, has_txs, kind, I, op, c, salt, rec):
+    """one entry point on one object; cur = the header the object carries now. -> False to stop this object's sequence"""
+    hdr = RB.ser_header(cur)
+    body = I["data"][80:] if has_txs else b""
+    cls = "full" if has_txs else "header_only"
+    want_hash = RT.dsha(hdr)
+    if op == "stream_header":
+        rec.ev("Block.stream_header")
+        f = io.BytesIO()
+        st, e = observe(obj.stream_header, f)
+        if st != "ok" or f.getvalue() != hdr:
+            rec.violation("kinds.stream_header_mismatch." + cls, c, e if st != "ok" else f.getvalue(), hdr)
+            return False
+    elif op == "stream":
+        rec.ev("Block.stream")
+        f = io.BytesIO()
+        st, e = observe(obj.stream, f)
+        if st != "ok" or f.getvalue() != hdr + body:
+            rec.violation("kinds.stream_mismatch." + cls, c, e if st != "ok" else f.getvalue(), hdr + body)
+            return False
+    elif op == "as_bin":
+        rec.ev("Block.as_bin")
+        st, out = observe(obj.as_bin)
+        if st != "ok" or out != hdr + body:
+            rec.violation("kinds.as_bin_mismatch." + cls, c, out, hdr + body)
+            return False
+    elif op == "as_hex":
+        rec.ev("Block.as_hex")
+        st, out = observe(obj.as_hex)
+        if st != "ok" or out != (hdr + body).hex():
+            rec.violation("kinds.as_hex_mismatch." + cls, c, out, (hdr + body).hex())
+            return False
+    elif op == "hash":
+        rec.ev("Block.hash")
+        st, h = observe(obj.hash)
+        if st != "ok" or bytes(h) != want_hash:
+            rec.violation("kinds.hash_mismatch." + cls, c, h, want_hash)
+            return False
+    elif op == "id":
+        rec.ev("Block.id")
+        st, i = observe(obj.id)
+        if st != "ok" or i != want_hash[::-1].hex():
+            rec.violation("kinds.id_mismatch." + cls, c, i, want_hash[::-1].hex())
+            return False
+    elif op == "previous_block_id":
+        observe(obj.previous_block_id)               # stimulus only (the statement does not speak about it)
+    elif op == "str":
+        observe(str, obj)                            # stimulus only
+        observe(repr, obj)
+    elif op == "check_merkle_hash":
+        if has_txs:
+            rec.ev("Block.check_merkle_hash")
+            st, e = observe(obj.check_merkle_hash)
+            if st != "ok":
+                rec.violation("block.check_merkle_hash_rejects_valid", c, e, None)
+                return False
+    elif op == "as_blockheader":
+        rec.ev("Block.as_blockheader")
+        st, hb = observe(obj.as_blockheader)
+        if st != "ok":
+            rec.violation("kinds.as_blockheader_raises", c, hb, "header object")
+            return False
+        st, out = observe(hb.as_bin)
+        if st != "ok" or out != hdr:
+            rec.violation("kinds.as_blockheader_not_the_header." + cls, c, out, hdr)
+            return False
+        f = io.BytesIO()
+        st, e = observe(hb.stream, f)
+        if st != "ok" or f.getvalue() != hdr:
+            rec.violation("kinds.as_blockheader_not_the_header." + cls, c, e if st != "ok" else f.getvalue(), hdr)
+            return False
+        st, h = observe(hb.hash)
+        if st != "ok" or bytes(h) != want_hash:
+            rec.violation("kinds.as_blockheader_hash_mismatch", c, h, want_hash)
+            return False
+    elif op == "alias_blockheader":
+        # the header object handed out is a separate object: editing it does not edit the block, and the reverse
+        rec.ev("Block.as_blockheader")
+        st, hb = observe(obj.as_blockheader)
+        if st != "ok":
+            rec.violation("kinds.as_blockheader_raises", c, hb, "header object")
+            return False
+        observe(obj.hash)
+        observe(hb.hash)
+        other = (cur["nonce"] ^ (1 + (salt & 0xffff))) & 0xffffffff
+        st, e = observe(hb.set_nonce, other)
+        if st != "ok":
+            rec.violation("block.set_nonce_raises", c, e, None)
+            return False
+        st, out = observe(obj.as_bin)
+        st2, h = observe(obj.hash)
+        if st != "ok" or st2 != "ok" or out != hdr + body or bytes(h) != want_hash:
+            rec.violation("kinds.as_blockheader_aliases_block", c, {"as_bin": out, "hash": h}, {"as_bin": hdr + body, "hash": want_hash})
+            return False
+        hdr2 = RB.ser_header(dict(cur, nonce=other))
+        st, out = observe(hb.as_bin)
+        st2, h = observe(hb.hash)
+        if st != "ok" or st2 != "ok" or out != hdr2 or bytes(h) != RT.dsha(hdr2):
+            rec.violation("block.id_stale_after_set_nonce", c, {"as_bin": out, "hash": h}, {"as_bin": hdr2, "hash": RT.dsha(hdr2)})
+            return False
+    elif op == "set_nonce":
+        rec.ev("Block.set_nonce")
+        new = (cur["nonce"] + 1 + (salt % 7)) & 0xffffffff if salt & 1 else (salt * 2654435761) & 0xffffffff
+        st, e = observe(obj.set_nonce, new)
+        if st != "ok":
+            rec.violation("block.set_nonce_raises", c, e, None)
+            return False
+        cur["nonce"] = new
+    elif op in ("pack_merkleblock", "pack_headers", "pack_block"):
+        return _pack_op(N, obj, cur, has_txs, kind, I, op, c, rec)
+    else:
+        raise ValueError(op)
+    return True
+
+
+def _pack_op(N, obj, cur, has_txs, kind, I, op, c, rec):
+    """the object handed to the library's message packer as the header / block field; the packed bytes are the reference
+    wire encoding of the header (block) the object carries, and the library's parser reads them back."""
+    cls = "full" if has_txs else "header_only"
+    hdr = RB.ser_header(cur)
+    total, hashes, fb = I["proof"]
+    if op == "pack_merkleblock":
+        rec.ev("message.pack(merkleblock)")
+        ref = proof_msg(cur, total, hashes, fb)
+        # the containers in any of their usual spellings
+        spell = (c["step"] + len(hashes)) % 3
+        hs, fl = (list(hashes), list(fb)) if spell == 0 else (tuple(hashes), bytes(fb)) if spell == 1 else (list(hashes), tuple(fb))
+        st, out = observe(N.message.pack, "merkleblock", header=obj, total_transactions=total, hashes=hs, flags=fl)
+    elif op == "pack_headers":
+        rec.ev("message.pack(headers)")
+        ref = P2P.encode("headers", {"headers": [{"header": cur, "txn_count": 0}]})
+        st, out = observe(N.message.pack, "headers", headers=[(obj, 0)])
+    else:
+        if not has_txs:
+            return True                              # a header-only object is not a block message
+        rec.ev("message.pack(block)")
+        ref = hdr + I["data"][80:]
+        st, out = observe(N.message.pack, "block", block=obj)
+    rec.ev("pack:" + cls)
+    if st != "ok":
+        if kind in AS_BLOCKHEADER_KINDS and not isinstance(obj, N.block):
+            rec.ev("pack:as_blockheader_result_refused")
+            rec.violation("pack.refuses_as_blockheader_result", c, out, "packed message")
+            return True
+        rec.violation("pack.%s_raises.%s" % (op[5:], cls), c, out, "packed message")
+        return False
+    if out != ref:
+        rec.violation("pack.%s_not_wire_format.%s" % (op[5:], cls), c, out, ref)
+        return False                                 # (bytes that are not the wire format are not fed to the parser: undefined cost)
+    name = op[5:]
+    rec.ev("message.parse(%s)" % name)
+    st, d = observe(N.message.parse, name, out)
+    if name == "merkleblock":
+        rec.ev("proof:honest")
+        if st != "ok":
+            rec.violation("pmt.rejects_honest_proof_packed_by_library", c, d, I["want"])
+            return False
+        if [bytes(h) for h in d.get("tx_hashes", ())] != I["want"]:
+            rec.violation("pmt.wrong_matches", c, d.get("tx_hashes"), I["want"])
+            return False
+        got = d["header"]
+    elif name == "headers":
+        if st != "ok" or len(d["headers"]) != 1 or d["headers"][0][1] != 0:
+            rec.violation("headers.parse_raises" if st != "ok" else "headers.roundtrip_mismatch", c, d, "one header, count 0")
+            return False
+        got = d["headers"][0][0]
+    else:
+        if st != "ok":
+            rec.violation("block.parse_rejects_valid", c, d, "block")
+            return False
+        got = d["block"]
+        st, ab = observe(got.as_bin)
+        if st != "ok" or ab != ref:
+            rec.violation("block.roundtrip_mismatch", c, ab, ref)
+            return False
+    if _hdr_fields(got) != cur:
+        rec.violation("pack.%s_header_roundtrip_mismatch" % name, c, _hdr_fields(got), cur)
+        return False
+    st, h = observe(got.hash)
+    if st != "ok" or bytes(h) != RT.dsha(hdr):
+        rec.violation("block.hash_mismatch", c, h, RT.dsha(hdr))
+        return False
+    return True
+
+
+def run_kinds(spec, rec):
+    net = spec["net"]
+    rng = shard_rng(spec["seed"], PROPERTY, spec["tier"], spec["shard"])
+    sizes = list(range(1, 18)) + [32, 33]
+    for rep in range(spec["reps"]):
+        todo = list(sizes) + [rng.randrange(18, 32), rng.choice([64, 65])]
+        rng.shuffle(todo)
+        while todo:
+            group = [todo.pop() for _ in range(min(len(todo), rng.choice([1, 2, 3])))]
+            blocks, matches = [], []
+            for n in group:
+                header, txs = G.rand_block(rng, n)
+                blocks.append(RB.ser_block(header, txs))
+                r = rng.random()
+                matches.append(list(range(n)) if r < 0.15 else [] if r < 0.25 else [n - 1] if r < 0.4 else
+                               [i for i in range(n) if rng.random() < rng.choice([0.1, 0.5])])
+            judge_kinds(net, blocks, matches, gen_kinds_plan(rng, len(blocks)), rec)
+    rec.sample({"op": "object kinds x entry points", "kinds": sorted(OBJECT_KINDS), "entry_points": list(OBJECT_OPS)})
+
+
 def run_shard(spec, rec):
     kind = spec["kind"]
-    if kind == "blocks":
+    if kind == "kinds":
+        rec.require(*(["kind:" + k for k in OBJECT_KINDS] + ["message.pack(merkleblock)", "message.pack(headers)", "message.pack(block)",
+                      "pack:full", "pack:header_only", "Block.stream", "Block.stream_header", "Block.as_blockheader", "proof:honest"]))
+        run_kinds(spec, rec)
+    elif kind == "blocks":
         rec.require("Block.from_bin", "Block.as_bin", "Block.id", "Block.hash", "Block.parse_as_header", "Block.stream_header",
                     "BadMerkleRoot:Block.from_bin", "BadMerkleRootError raised", "Block.check_merkle_hash", "Block.set_txs", "merkle")
         run_blocks(spec, rec)
@@ -1038,5 +1456,7 @@ def replay_case(case, rec):
         judge_merkle(G.fake_txids(case["tag"], case["n"]), rec)
     elif kind == "proof":
         judge_proof(case["net"], case["data"], case["cls"], case.get("want"), rec)
+    elif kind == "kinds":
+        judge_kinds(case["net"], case["blocks"], case["matches"], case["plan"], rec)
     else:
         raise ValueError("unknown case kind %r" % kind)
